@@ -2,6 +2,8 @@ package spec
 
 import (
 	"go/ast"
+	"go/token"
+	"go/types"
 	"regexp"
 	"strings"
 
@@ -15,7 +17,7 @@ import (
 func windowDiscipline(r *an.Run) {
 	p := r.Prog
 	r.Obl("log-index-window-discipline", "GUARD",
-		"every comparison of an update's LogIndex against a commitment bound in lnwallet and channeldb uses `<` or `>=` (never `<=` or `>`), and the selection sites that decide which updates are covered by a commitment, persisted as unsigned, or restored as already applied are guarded by exactly the documented bound: fetchHTLCView (< index), getUnsignedAckedUpdates (>= signed, < acked), restorePendingRemoteUpdates (< pending commit's remote index; < remote log index), UpdateChannelCommitment (>= LocalLogIndex kept), AdvanceCommitChainTail (>= RemoteLogIndex kept)",
+		"every comparison of an update's LogIndex against a commitment bound in lnwallet and channeldb uses `<` or `>=` (never `<=` or `>`), and the selection sites that decide which updates are covered by a commitment, persisted as unsigned, or restored as already applied are guarded by exactly the documented bound: fetchHTLCView (< index), getUnsignedAckedUpdates (>= signed, < acked), restorePendingRemoteUpdates (< pending commit's remote index; < remote log index), unsignedLocalUpdates (< remote bound, >= local bound), UpdateChannelCommitment (>= the new commitment's LocalLogIndex kept), AdvanceCommitChainTail (>= the stored diff's RemoteLogIndex kept), the two store filters visiting every stored update; every caller of fetchHTLCView (through forwarding functions) passes an index into the remote log as their bound and one into the local log as our bound, and ReceiveRevocation passes (remote tip, local tail) local indexes to unsignedLocalUpdates",
 		"the bound is exclusive on every side of the protocol; one site using an inclusive bound counts one update twice or drops it, which desynchronises the two peers only when an update index coincides with the bound (crossing signatures plus a restart)", 20,
 		func(o *an.Obl) {
 			re := regexp.MustCompile(`\.LogIndex (<=|>=|<|>|==|!=) |(<=|>=|<|>|==|!=) [^ ]*\.LogIndex\)$`)
@@ -75,6 +77,9 @@ func windowDiscipline(r *an.Run) {
 				{lw + "LightningChannel.getUnsignedAckedUpdates", appendTo("logUpdates"), []an.Fact{
 					an.CmpX(idx, an.GE, canonTerm(`commitChains\.Remote\.tail\(\)\.messageIndices\.Remote$`), "LogIndex >= remote tail's remote index"),
 					an.CmpX(idx, an.LT, canonTerm(`commitChains\.Local\.tail\(\)\.messageIndices\.Remote$`), "LogIndex < local tail's remote index")}},
+				{lw + "LightningChannel.unsignedLocalUpdates", appendTo("localPeerUpdates"), []an.Fact{
+					an.CmpX(idx, an.LT, an.Param(0), "LogIndex < remoteMessageIndex (on the remote commitment)"),
+					an.CmpX(idx, an.GE, an.Param(1), "LogIndex >= localMessageIndex (not on our commitment)")}},
 				{lw + "LightningChannel.restorePendingRemoteUpdates", func(f *an.Func) []an.Site {
 					return f.Assigns(an.LocalNamed("heightSet"), false)
 				}, []an.Fact{an.CmpX(idx, an.LT, an.FieldPath(an.FieldPath(an.Param(2), "messageIndices"), "Remote"), "LogIndex < pendingRemoteCommit.messageIndices.Remote"),
@@ -91,9 +96,11 @@ func windowDiscipline(r *an.Run) {
 				}
 				guardedAll(o, f, ss, t.facts...)
 			}
-			for _, t := range []struct{ fn, list, bound string }{
-				{"channeldb.ChannelStateDB.UpdateChannelCommitment", "unsignedUpdates", "LocalLogIndex"},
-				{"channeldb.ChannelStateDB.AdvanceCommitChainTail", "validUpdates", "RemoteLogIndex"},
+			for _, t := range []struct{ fn, list, bound, base string }{
+				// the bound is the index of the commitment this transition makes
+				// current: the one handed in / the one of the stored diff
+				{"channeldb.ChannelStateDB.UpdateChannelCommitment", "unsignedUpdates", "LocalLogIndex", `^\$p1\.LocalLogIndex$`},
+				{"channeldb.ChannelStateDB.AdvanceCommitChainTail", "validUpdates", "RemoteLogIndex", `^channeldb\.deserializeCommitDiff\(bytes\.NewReader\(.*\.Get\(channeldb\.commitDiffKey\)\)\)\.Commitment\.RemoteLogIndex$`},
 			} {
 				cl := theLit(p.Func(t.fn), kvUpdate, "kvdb.Update")
 				ss := appendTo(t.list)(cl)
@@ -101,12 +108,33 @@ func windowDiscipline(r *an.Run) {
 					o.FailAt(t.fn+"#window-site-missing", cl.Where(cl.Body.Pos()), "expected one append to %s, found %d", t.list, len(ss))
 					continue
 				}
-				guarded(o, cl, ss[0], an.CmpX(idx, an.GE, an.FieldPath(nil, t.bound), "LogIndex >= "+t.bound))
+				guarded(o, cl, ss[0], an.CmpX(idx, an.GE, canonTerm(t.base), "LogIndex >= the new commitment's "+t.bound))
+				c02ParamsStable(o, cl)
+				// the filter looks at every stored update: one that is skipped is
+				// neither kept as unsigned nor recorded as locked in
+				if hdr := enclosingLoopHeader(cl, ss[0].Node); hdr == "" {
+					o.FailAt(t.fn+"#window-loop", ss[0].Where(), "the append to %s is not inside the loop over the stored updates", t.list)
+				} else {
+					loopVisitsAll(o, cl, "^"+regexpQuote(hdr)+"$")
+				}
+			}
+			for _, fn := range []string{"fetchHTLCView", "getUnsignedAckedUpdates", "unsignedLocalUpdates", "restorePendingRemoteUpdates"} {
+				c02ParamsStable(o, p.Func(lw+"LightningChannel."+fn))
+			}
+			// the callers hand the bounds over in the order of the parameters:
+			// an index into the remote log as "their" bound, one into the local
+			// log as "our" bound, through every forwarding function
+			c02LogIndexArg(o, p, lw+"LightningChannel.fetchHTLCView", 0, "their", 0)
+			c02LogIndexArg(o, p, lw+"LightningChannel.fetchHTLCView", 1, "our", 0)
+			if us := p.Func(lw+"LightningChannel.ReceiveRevocation").Calls(an.CalleeIs(lw+"LightningChannel.unsignedLocalUpdates"), false); needExactly(o, p.Func(lw+"LightningChannel.ReceiveRevocation"), "unsignedLocalUpdates", us, 1) {
+				c02ArgsAre(o, p.Func(lw+"LightningChannel.ReceiveRevocation"), us[0], "unsignedLocalUpdates", map[int]string{
+					0: `^\$recv\.commitChains\.Remote\.tip\(\)\.messageIndices\.Local$`,
+					1: `^\$recv\.commitChains\.Local\.tail\(\)\.messageIndices\.Local$`})
 			}
 		})
 
 	r.Obl("restore-dispatch-complete", "REG",
-		"the two loops of restoreStateLogs that recover add heights from persisted settle/fail updates handle the same set of wire messages, including update_fulfill_htlc, update_fail_htlc and update_fail_malformed_htlc; the update-type switches that set commit heights, convert to log updates and classify uncommitted updates name every update type",
+		"the two loops of restoreStateLogs that recover add heights from persisted settle/fail updates handle the same set of wire messages, including update_fulfill_htlc, update_fail_htlc and update_fail_malformed_htlc; the update-type switches that set commit heights, convert to log updates and classify uncommitted updates name every update type; setCommitHeight records the add height for adds, the remove height for removals and both for fee updates; the map feeding the restored addCommitHeights.Local holds only the local commitment's height (keyed by its offered HTLCs and by the parents of the unsigned acked updates), the one feeding addCommitHeights.Remote the (pending, then acked) remote commitment's height for its received HTLCs and the remote height for the parents of the peer-unsigned local updates",
 		"an update type missing from one dispatch is restored with a zero height (or not at all) only for that rarely used message, and the next signature after a restart is rejected", 7,
 		func(o *an.Obl) {
 			f := p.Func(lw + "LightningChannel.restoreStateLogs")
@@ -184,10 +212,200 @@ func windowDiscipline(r *an.Run) {
 			for k := range want {
 				o.FailAt(k+"#switch-missing", "", "update-type switch %s not found", k)
 			}
+			c02CommitHeightArms(o, p)
+			c02AddHeightRecovery(o, p)
 		})
 }
 
 func isAppend(f *an.Func, e ast.Expr) bool {
 	c, ok := ast.Unparen(e).(*ast.CallExpr)
 	return ok && an.CalleeID(f.Info(), c) == "builtin.append"
+}
+
+// c02LogIndexSide classifies the canonical form of a log-index bound: an index
+// into our (local) update log or into their (remote) one.
+func c02LogIndexSide(c string) string {
+	switch {
+	case reMatch(`(messageIndices\.Local|updateLogs\.Local\.logIndex)$`, c):
+		return "our"
+	case reMatch(`(messageIndices\.Remote|updateLogs\.Remote\.logIndex)$`, c):
+		return "their"
+	}
+	return ""
+}
+
+// c02LogIndexArg: at every non-test call site of callee in lnwallet argument
+// argIdx is an index of the wanted side; a caller that forwards one of its own
+// parameters is checked at its call sites in turn.
+func c02LogIndexArg(o *an.Obl, p *an.Prog, callee string, argIdx int, side string, depth int) {
+	n := 0
+	for _, f := range p.Funcs(false, "lnwallet") {
+		for _, s := range f.Calls(an.CalleeIs(callee), false) {
+			n++
+			a := f.ArgCanon(s)
+			if argIdx >= len(a) {
+				continue
+			}
+			c := a[argIdx]
+			o.Site("%s passes %s as the %s log index of %s", f.ID, c, side, callee)
+			if got := c02LogIndexSide(c); got != "" {
+				if got != side {
+					o.FailAt(constructOf(f, s)+"#log-index-side-"+itoa(argIdx), s.Where(), "%s passes %s (an index into the %s log) where %s expects the bound for the %s log", f.ID, c, got, callee, side)
+				}
+				continue
+			}
+			if m := regexp.MustCompile(`^\$p(\d+)$`).FindStringSubmatch(c); m != nil && depth < 3 {
+				i := 0
+				for _, ch := range m[1] {
+					i = i*10 + int(ch-'0')
+				}
+				c02ParamsStable(o, f)
+				c02LogIndexArg(o, p, f.Root().ID, i, side, depth+1)
+				continue
+			}
+			o.FailAt(constructOf(f, s)+"#log-index-origin-"+itoa(argIdx), s.Where(), "%s passes %s as the %s log index of %s: neither a commitment's message index / a log counter of that side nor a forwarded parameter", f.ID, c, side, callee)
+		}
+	}
+	if n == 0 {
+		o.FailAt(callee+"#no-callers", "", "no call site of %s found", callee)
+	}
+}
+
+// c02CommitHeightArms: what the arms of paymentDescriptor.setCommitHeight do:
+// adds record the add height, removals the remove height, fee updates both,
+// always for the chain and height handed in.
+func c02CommitHeightArms(o *an.Obl, p *an.Prog) {
+	f := p.Func(lw + "paymentDescriptor.setCommitHeight")
+	c02ParamsStable(o, f)
+	sets := f.Calls(an.CalleeNamed("SetForParty"), false)
+	if !need(o, f, "SetForParty", sets, 4) {
+		return
+	}
+	for _, s := range sets {
+		c02ArgsAre(o, f, s, "SetForParty", map[int]string{0: `^\$p0$`, 1: `^\$p1$`})
+	}
+	want := map[string]string{
+		"Add": "addCommitHeights", "NoOpAdd": "addCommitHeights",
+		"Settle": "removeCommitHeights", "Fail": "removeCommitHeights", "MalformedFail": "removeCommitHeights",
+		"FeeUpdate": "addCommitHeights,removeCommitHeights",
+	}
+	for _, k := range []string{"Add", "NoOpAdd", "Settle", "Fail", "MalformedFail", "FeeUpdate"} {
+		reach := f.ReachUnder(entryKindDecide(k))
+		got := map[string]bool{}
+		for _, s := range sets {
+			if !reach[s.V] {
+				continue
+			}
+			fun := f.Canon(s.Node.(*ast.CallExpr).Fun)
+			got[strings.TrimSuffix(strings.TrimPrefix(fun, "$recv."), ".SetForParty")] = true
+		}
+		g := keys(got)
+		sortStrings(g)
+		o.Site("setCommitHeight: entry type %s sets %v", k, g)
+		if strings.Join(g, ",") != want[k] {
+			o.FailAt(f.ID+"#arm-"+k, f.Where(f.Body.Pos()), "setCommitHeight sets %v for a %s entry, expected %s", g, k, want[k])
+		}
+	}
+}
+
+// c02AddHeightRecovery: the two maps of restoreStateLogs that carry the add
+// heights into the restored HTLCs.  The map that feeds addCommitHeights.Local
+// only ever holds the local commitment's height, keyed by the HTLCs we offered
+// on it and by the parents of the acked-but-unsigned remote removals; the map
+// that feeds addCommitHeights.Remote holds the height of the (pending) remote
+// commitment for the HTLCs received on it and the remote commitment's height
+// for the parents of our removals the peer still has to sign.
+func c02AddHeightRecovery(o *an.Obl, p *an.Prog) {
+	f := p.Func(lw + "LightningChannel.restoreStateLogs")
+	c02ParamsStable(o, f)
+	info := f.Info()
+	// consumers: htlc.addCommitHeights.<Side> = M[...]
+	maps := map[string]types.Object{}
+	type write struct {
+		m             types.Object
+		hdr, key, val string
+		at            string
+	}
+	var writes []write
+	ast.Inspect(f.Body, func(n ast.Node) bool {
+		as, ok := n.(*ast.AssignStmt)
+		if !ok || len(as.Lhs) != 1 || len(as.Rhs) != 1 {
+			return true
+		}
+		if l := an.Text(as.Lhs[0]); strings.HasSuffix(l, ".addCommitHeights.Local") || strings.HasSuffix(l, ".addCommitHeights.Remote") {
+			if ix, ok := ast.Unparen(as.Rhs[0]).(*ast.IndexExpr); ok {
+				side := l[strings.LastIndex(l, ".")+1:]
+				if old, dup := maps[side]; dup && old != c02ObjOf(f, ix.X) {
+					o.FailAt(f.ID+"#add-height-maps-"+side, f.Where(as.Pos()), "addCommitHeights.%s is fed from two different maps", side)
+				}
+				maps[side] = c02ObjOf(f, ix.X)
+				o.Site("restoreStateLogs: addCommitHeights.%s <- %s inside the loop over %s", side, an.Text(as.Rhs[0]), enclosingLoopHeader(f, as))
+			}
+		}
+		if ix, ok := ast.Unparen(as.Lhs[0]).(*ast.IndexExpr); ok {
+			if _, isMap := info.TypeOf(ix.X).Underlying().(*types.Map); isMap {
+				key := f.Canon(ix.Index)
+				if id, ok := ast.Unparen(ix.Index).(*ast.Ident); ok {
+					// a key variable set in the arms of a message type switch
+					var forms []string
+					for _, ks := range f.Assigns(func(fn *an.Func, e ast.Expr) bool { return c02ObjOf(fn, e) == c02ObjOf(f, id) }, false) {
+						if ka, ok := ks.Node.(*ast.AssignStmt); ok && len(ka.Rhs) == 1 {
+							forms = append(forms, reSub(`\$v:\*lnwire\.[A-Za-z]+`, "$$msg", f.Canon(ka.Rhs[0])))
+						}
+					}
+					key = strings.Join(uniq(forms), "|")
+				}
+				writes = append(writes, write{c02ObjOf(f, ix.X), enclosingLoopHeader(f, as), key, f.Canon(as.Rhs[0]), f.Where(as.Pos())})
+			}
+		}
+		return true
+	})
+	if maps["Local"] == nil || maps["Remote"] == nil || maps["Local"] == maps["Remote"] {
+		o.FailAt(f.ID+"#add-height-maps", f.Where(f.Body.Pos()), "cannot find the two distinct maps that feed addCommitHeights.Local and addCommitHeights.Remote of the restored HTLCs")
+		return
+	}
+	want := map[string][]string{
+		"Local": {
+			"$p0.outgoingHTLCs [$elem($p0.outgoingHTLCs).HtlcIndex] = $p0.height",
+			"$p5 [$msg.ID] = $p0.height",
+		},
+		"Remote": {
+			"$p1.incomingHTLCs [$elem($p1.incomingHTLCs).HtlcIndex] = $p1.height",
+			"$p2.incomingHTLCs [$elem($p2.incomingHTLCs).HtlcIndex] = $p2.height",
+			"$p6 [$msg.ID] = $p1.height",
+		},
+	}
+	for _, side := range []string{"Local", "Remote"} {
+		var got []string
+		for _, w := range writes {
+			if w.m == maps[side] {
+				got = append(got, w.hdr+" ["+w.key+"] = "+w.val)
+			}
+		}
+		sortStrings(got)
+		o.Site("restoreStateLogs: the map feeding addCommitHeights.%s is written by %v", side, got)
+		if strings.Join(got, " ; ") != strings.Join(want[side], " ; ") {
+			o.FailAt(f.ID+"#add-height-writes-"+side, f.Where(f.Body.Pos()), "the map that restores addCommitHeights.%s is written by %v, expected (loop [key] = height) %v", side, got, want[side])
+		}
+	}
+	// the pending commitment's heights are written first so that the lower
+	// height of the acked remote commitment wins for HTLCs on both
+	var pend, acked token.Pos
+	for _, w := range writes {
+		_ = w
+	}
+	ast.Inspect(f.Body, func(n ast.Node) bool {
+		if rs, ok := n.(*ast.RangeStmt); ok {
+			switch f.Canon(rs.X) {
+			case "$p2.incomingHTLCs":
+				pend = rs.Pos()
+			case "$p1.incomingHTLCs":
+				acked = rs.Pos()
+			}
+		}
+		return true
+	})
+	if pend == 0 || acked == 0 || pend > acked {
+		o.FailAt(f.ID+"#add-height-order", f.Where(f.Body.Pos()), "the incoming HTLCs of the pending remote commitment must be recorded before those of the acked remote commitment (the lower height overwrites)")
+	}
 }
